@@ -837,6 +837,8 @@ func Run(r *monitor.Run) {
 		}
 	}
 	defer rwg.Wait()
+	rwg.Add(1)
+	go func() { defer rwg.Done(); directedSessions(r) }()
 	r.Parallel(n, 16, func(i int) {
 		sc := &scs[i]
 		fs, obs, err := runScenario(sc)
